@@ -870,3 +870,89 @@ def r6c_backend_feeds_classifier(facts, rep):
                     bad.append((v, sorted(outcomes)))
             rep.check(not bad, "R6", short, "failed-completion-can-fail", "a failed io_uring completion is not classified as an error: %s - the command would be reported as success or resubmitted forever (the commit hangs instead of failing)" % ", ".join("result %d -> %s" % x for x in bad[:3]), site=t.get("ln"), detail="completion results < 0 reach get_result as a value it classifies Err (possibly Retry on EINTR), never Ok")
     return sites, n
+
+
+# ---- R8: the byte count of a partial I/O call is looked at ----------------------------------------------
+# `write`, `write_vectored`, `write_at`, `read`, `read_at`.. may transfer FEWER bytes than asked and still return Ok(n): a
+# write cut short by a full disk or a file-size limit reports the error only on the next attempt.  A caller that propagates the
+# Err with `?` and then ignores n treats a torn record as written - the commit is acknowledged although it failed (C14: "a
+# failing operation is reported").  Rule: wherever crate nomt calls one of these, the usize payload of the result reaches a
+# comparison, arithmetic, a branch, another call, a stored value or the function's own return value.  (`write_all`,
+# `read_exact`, `write_all_at`, `read_exact_at` loop internally and are the normal way; they are not in the set.)
+PARTIAL_IO = re.compile(r"(?:^|::|>::)(write|write_vectored|write_at|read|read_vectored|read_at|pwrite|pread|send|recv)$")
+PARTIAL_IO_OWNERS = ("std::io::Write", "std::io::Read", "std::os::unix::fs::FileExt", "std::fs::File", "std::io::BufWriter", "std::io::BufReader", "std::io::impls", "std::io::buffered", "std::io::stdio", "std::io::cursor")
+UNWRAPPERS = ("::branch", "::unwrap", "::expect", "::unwrap_or", "::unwrap_or_default", "::unwrap_or_else", "::into_inner", "::map", "::and_then", "::from_residual", "::ok", "::ok_or", "::ok_or_else")
+
+
+def r8_partial_io_counts(facts, rep):
+    n = 0
+    for body in facts.bodies.values():
+        if body.crate != "nomt" or "::tests::" in body.id or "::test::" in body.id or body.derived:
+            continue
+        sites = []
+        for b, t in body.calls():
+            if body.is_cleanup(b):
+                continue
+            c = t.get("callee") or ""
+            if not PARTIAL_IO.search(c) or not any(o in c for o in PARTIAL_IO_OWNERS):
+                continue
+            dty = body.place_ty(t["dest"]) or ""
+            if not dty.startswith("core::result::Result<usize"):
+                continue
+            sites.append((b, t, c))
+        if not sites:
+            continue
+        ui = UseIndex(body)
+        for (b, t, c) in sites:
+            n += 1
+            consumed, escaped = False, False
+            seen = set()
+            work = [t["dest"]["l"]]
+            while work and not consumed:
+                l = work.pop()
+                if l in seen:
+                    continue
+                seen.add(l)
+                if l == 0:
+                    escaped = True  # handed to the caller as this function's result
+                    continue
+                payload = body.local_ty(l) == "usize"
+                for (kind, ub, ui_, pl, dest, obj) in ui.of(l):
+                    if kind == "discr" or kind == "drop":
+                        continue
+                    if kind == "ref":
+                        if dest is not None and not dest.get("p"):
+                            work.append(dest["l"])
+                        continue
+                    if kind == "assign":
+                        # projections walk towards the payload (`(_r as Continue).0`); the error side is not the count
+                        if any(e in ("@Break", "@Err", "@None") for e in (pl.get("p") or [])):
+                            continue
+                        if dest is not None:
+                            if dest.get("p"):
+                                consumed = consumed or payload
+                            else:
+                                work.append(dest["l"])
+                        continue
+                    if kind == "arg":
+                        cc = (obj.get("callee") or "")
+                        if any(cc.endswith(u) for u in UNWRAPPERS) and not payload:
+                            d = obj.get("dest")
+                            if d is not None and not d.get("p"):
+                                work.append(d["l"])
+                            continue
+                        if payload or not cc.startswith("core::"):
+                            consumed = True  # the count (or the whole result) is given to other code
+                        elif obj.get("dest") is not None and not obj["dest"].get("p"):
+                            work.append(obj["dest"]["l"])
+                        continue
+                    if kind in ("binop", "switch", "agg"):
+                        if payload or kind == "agg":
+                            consumed = True
+                        continue
+            short = body.id.split("::", 1)[1]
+            m = PARTIAL_IO.search(c).group(1)
+            rep.check(consumed or escaped, "R8", short, "partial-io|%s" % m, "the number of bytes transferred by `%s` at %s is never looked at: a short %s (disk full, file-size limit, signal) counts as complete, so a torn record is reported as written" % (m, t.get("ln"), "write" if "w" in m or m == "send" else "read"), site=t.get("ln"), detail="the count returned by %s at %s is %s" % (m, t.get("ln"), "consumed" if consumed else "returned to the caller"))
+    n += 1
+    rep.ok("R8", "crate nomt", "partial-io-calls", detail="%d call(s) of partial I/O primitives (write / read / write_at / read_at / *_vectored) inspected; everything else uses write_all / read_exact / the I/O pool" % (n - 1))
+    return n
